@@ -338,7 +338,16 @@ def main(argv):
             henv.update(cfg.get("harness_env", {}))
             rc, out = sh(cmd, timeout=cfg.get(tier, {}).get("timeout", 3000), env=henv, cwd=rundir)
             if rc != 0:
-                tie_broken = "harness run failed (rc=%d): %s" % (rc, out[-3000:])
+                crashed = None
+                try:
+                    crashed = json.load(open(os.path.join(rundir, "current.json")))
+                except Exception:
+                    pass
+                if crashed is not None:
+                    what = "hangs (no result within the per-case time limit)" if rc == 3 else "crashes the process (panic in a goroutine of the implementation or fatal error)"
+                    res["crash"] = {"desc": crashed.get("desc"), "case_index": crashed.get("i"), "what": what, "output_tail": out[-3000:]}
+                else:
+                    tie_broken = "harness run failed (rc=%d): %s" % (rc, out[-3000:])
             else:
                 stats = json.load(open(os.path.join(rundir, "stats.json")))
                 recs = [json.loads(l) for l in open(os.path.join(rundir, "cases.jsonl"))]
@@ -361,6 +370,12 @@ def main(argv):
     def replay_path(tag):
         return os.path.join(replaydir, "%s-%d-%s.json" % (pid, seed, tag))
 
+    if res.get("crash"):
+        p = replay_path("crash")
+        write_json(p, {"property": pid, "kind": "implementation-crashed-or-hung", "what": "the real code " + res["crash"]["what"] + " while running this case",
+                       "case_index": res["crash"]["case_index"], "desc": res["crash"]["desc"], "output_tail": res["crash"]["output_tail"],
+                       "seed": seed, "tier": tier, "how": "./check %s --replay %s" % (pid, p)})
+        violations.append((p, False))
     seen_known = {}
     unlisted = []
     for i in sorted(set(pfail)):
@@ -393,7 +408,7 @@ def main(argv):
                            "searched": "property oracle evaluated on all %d implementation results of this run: no failing input" % len(recs),
                            "how": "./check %s --replay %s" % (pid, p)})
             violations.append((p, True))
-        elif tie_broken:
+        elif tie_broken and not res.get("crash"):
             p = replay_path("tie")
             write_json(p, {"property": pid, "kind": "tie-broken", "broken": tie_broken, "seed": seed,
                            "searched": "%d cases evaluated before the tie broke" % len(recs)})
